@@ -62,7 +62,8 @@ def factory_specs(tier: str) -> list[dict]:
             continue
         if tier == "quick" and sum(Fraction(x) for x in (s0, s1, s2)) > Fraction(3, 2):
             continue
-        for spectator in ((0,) if tier == "quick" else (0, 1, 2)):
+        high = any(Fraction(x) > 1 for x in (JA, s0, s1, s2, sR))
+        for spectator in ((0,) if (tier == "quick" or high) else (0, 1, 2)):
             sp_spin = (s0, s1, s2)[spectator]
             pair = [s for i, s in enumerate((s0, s1, s2)) if i != spectator]
             if not (_consistent(JA, sp_spin, sR) and _consistent(sR, *pair)):
@@ -131,7 +132,16 @@ def cases(tier, seed):
                   if len(sp_["chains"]) == 1 and sp_["chains"][0]["n"] == 3
                   and all(sp_["chains"][0]["pc"].values())
                   and (sp_["outer"]["-1"][1], sp_["outer"]["0"][1], sp_["outer"]["1"][1]) == ("1", "1/2", "1/2")]
-    for spec in live_specs[: (4 if tier == "quick" else 40)]:
+    n_live = 0
+    for spec in live_specs:
+        if n_live >= (4 if tier == "quick" else 40):
+            break
+        try:
+            if len(R.build_reaction(spec).transitions) > MAX_TRANSITIONS[tier]:
+                continue
+        except ValueError:
+            continue
+        n_live += 1
         out.append({"reaction": {"spec": spec}, "flags": {}, "live": True, "seed": seed})
     out.append({"reaction": {"catalogue": "jpsi_ksp_sigma_n"}, "flags": {}, "live": True, "seed": seed})
     for base in CATALOGUE:
